@@ -158,4 +158,770 @@ theorem Good.of_same {spec : List ModSpec} {w w' : PyW} (h : Inv spec w)
     obtain ⟨po, h1', h2'⟩ := h.coherent p c o hne hp
     exact ⟨po, by rw [hm]; exact h1', by rw [ha]; exact h2'⟩
 
+/-! ### module bodies -/
+
+/-- what running the member assignments of a module body does -/
+structure RM (w w' : PyW) (o : Obj) (ms : List Name) : Prop where
+  mods : w'.mods = w.mods
+  spec : w'.spec = w.spec
+  next_le : w.next ≤ w'.next
+  info_old : ∀ x, x < w.next → w'.info.lookup x = w.info.lookup x
+  info_new : ∀ x i, w.next ≤ x → w'.info.lookup x = some i → x < w'.next ∧ ∃ t, i = .tagged t false
+  attr_other : ∀ x n, x ≠ o → w'.getattr x n = w.getattr x n
+  attr_notin : ∀ n, n ∉ ms → w'.getattr o n = w.getattr o n
+  attr_in : ∀ n, n ∈ ms → ∃ v, w'.getattr o n = some v ∧ w.next ≤ v ∧ v < w'.next ∧
+    ∃ t, w'.info.lookup v = some (.tagged t false)
+
+theorem runMembers_spec (w : PyW) (path : Dotted) (o : Obj) (ms : List Name)
+    (hinfo : ∀ x i, w.info.lookup x = some i → x < w.next) : RM w (runMembers w path o ms) o ms := by
+  induction ms generalizing w with
+  | nil =>
+    exact ⟨rfl, rfl, Nat.le_refl _, fun _ _ => rfl, fun x i hx hi => absurd (hinfo x i hi) (by omega),
+      fun _ _ _ => rfl, fun _ _ => rfl, fun n hn => by simp at hn⟩
+  | cons m ms ih =>
+    -- one assignment `m = _T(...)`
+    let w1 := ((w.alloc (.tagged (joinDot (path ++ [m])) false)).2.setattr o m w.next)
+    have hw1 : runMembers w path o (m :: ms) = runMembers w1 path o ms := rfl
+    have hinfo1 : ∀ x i, w1.info.lookup x = some i → x < w1.next := by
+      intro x i hx
+      simp only [w1, info_setattr, next_setattr, next_alloc, info_alloc] at hx ⊢
+      split at hx
+      · omega
+      · have := hinfo x i hx; omega
+    have h := ih w1 hinfo1
+    rw [hw1]
+    have hn1 : w1.next = w.next + 1 := rfl
+    have hi1 : ∀ x, w1.info.lookup x = if x = w.next then some (.tagged (joinDot (path ++ [m])) false) else w.info.lookup x :=
+      fun x => by simp only [w1, info_setattr, info_alloc]
+    have ha1 : ∀ x n, w1.getattr x n = if x = o ∧ n = m then some w.next else w.getattr x n :=
+      fun x n => by simp only [w1, getattr_setattr, getattr_alloc]
+    refine ⟨h.mods, h.spec, by have := h.next_le; omega, ?_, ?_, ?_, ?_, ?_⟩
+    · intro x hx
+      rw [h.info_old x (by omega), hi1]
+      have : x ≠ w.next := by omega
+      simp [this]
+    · intro x i hx hi
+      by_cases hx1 : w1.next ≤ x
+      · exact h.info_new x i hx1 hi
+      · have hxe : x = w.next := by omega
+        rw [h.info_old x (by omega), hi1] at hi
+        simp [hxe] at hi
+        exact ⟨by have := h.next_le; omega, _, hi.symm⟩
+    · intro x n hx
+      rw [h.attr_other x n hx, ha1]
+      simp [hx]
+    · intro n hn
+      have hnm : n ≠ m := fun e => hn (e ▸ List.mem_cons_self)
+      have hnms : n ∉ ms := fun e => hn (List.mem_cons_of_mem _ e)
+      rw [h.attr_notin n hnms, ha1]
+      simp [hnm]
+    · intro n hn
+      by_cases hnms : n ∈ ms
+      · obtain ⟨v, h1, h2, h3, h4⟩ := h.attr_in n hnms
+        exact ⟨v, h1, by omega, h3, h4⟩
+      · have hnm : n = m := by
+          rcases List.mem_cons.1 hn with h' | h'
+          · exact h'
+          · exact absurd h' hnms
+        have hle := h.next_le
+        have e1 : (runMembers w1 path o ms).getattr o n = some w.next := by
+          rw [h.attr_notin n hnms, ha1]; simp [hnm]
+        have e2 : (runMembers w1 path o ms).info.lookup w.next = some (.tagged (joinDot (path ++ [m])) false) := by
+          rw [h.info_old w.next (by omega), hi1]; simp
+        exact ⟨w.next, e1, Nat.le_refl _, by omega, _, e2⟩
+
+/-- a change that leaves all registrations and all attributes of existing objects alone -/
+theorem good_of_tables {spec : List ModSpec} {w w' : PyW} (h : Inv spec w)
+    (hspec : w'.spec = w.spec) (hnext : w.next ≤ w'.next)
+    (hinfo_old : ∀ x, x < w.next → w'.info.lookup x = w.info.lookup x)
+    (hinfo_lt : ∀ x i, w'.info.lookup x = some i → x < w'.next)
+    (hmods : ∀ q, w'.modOf q = w.modOf q)
+    (hattr_old : ∀ x n, x < w.next → w'.getattr x n = w.getattr x n)
+    (hattr_new : ∀ x n v, w.next ≤ x → w'.getattr x n = some v → x < w'.next ∧ v < w'.next) :
+    Good spec w w' := by
+  have hf : ∀ p, w'.findSpec p = w.findSpec p := findSpec_congr hspec
+  refine ⟨⟨hspec.trans h.spec_eq, hinfo_lt, ?_, ?_, ?_, ?_, ?_⟩, hnext, fun p o hp => by rw [hmods]; exact hp,
+    fun o n v hv => by rw [hattr_old o n (h.attrs_lt o n v hv).1]; exact hv,
+    fun p o hp hq => by rw [hmods, hp] at hq; simp at hq⟩
+  · intro p o hp; rw [hmods] at hp; have := h.mods_lt p o hp; omega
+  · intro o n v hv
+    by_cases ho : o < w.next
+    · rw [hattr_old o n ho] at hv
+      have := h.attrs_lt o n v hv; omega
+    · exact hattr_new o n v (by omega) hv
+  · intro p o hp; rw [hmods] at hp
+    rw [hinfo_old o (h.mods_lt p o hp)]; exact h.mod_info p o hp
+  · intro p o n v hp hv; rw [hmods] at hp
+    have ho := h.mods_lt p o hp
+    rw [hattr_old o n ho] at hv
+    rw [hf, hmods, hinfo_old v (h.attrs_lt o n v hv).2]
+    exact h.attr_kind p o n v hp hv
+  · intro p c o hne hp; rw [hmods] at hp
+    obtain ⟨po, h1, h2⟩ := h.coherent p c o hne hp
+    exact ⟨po, by rw [hmods]; exact h1, by rw [hattr_old po c (h.mods_lt p po h1)]; exact h2⟩
+
+theorem mod_inj {spec : List ModSpec} {w : PyW} (h : Inv spec w) {p q : Dotted} {o : Obj}
+    (hp : w.modOf p = some o) (hq : w.modOf q = some o) : p = q := by
+  obtain ⟨k1, h1⟩ := h.mod_info p o hp
+  obtain ⟨k2, h2⟩ := h.mod_info q o hq
+  rw [h1] at h2
+  simp at h2
+  exact h2.1
+
+theorem dropLast_getLast {path : Dotted} (h : path ≠ []) : path.dropLast ++ [path.getLast?.getD []] = path := by
+  have := List.dropLast_concat_getLast h
+  rw [List.getLast?_eq_some_getLast h]
+  simpa using this
+
+/-! ### loading one module -/
+
+/-- the world right after a module body ran successfully, before the module is attached to its parent -/
+structure Loaded (w w3 : PyW) (path : Dotted) (s : ModSpec) : Prop where
+  spec : w3.spec = w.spec
+  next_lt : w.next < w3.next
+  info_old : ∀ x, x < w.next → w3.info.lookup x = w.info.lookup x
+  info_o : w3.info.lookup w.next = some (.module path s.pkg)
+  info_lt : ∀ x i, w3.info.lookup x = some i → x < w3.next
+  mods : ∀ q, w3.modOf q = if q == path then some w.next else w.modOf q
+  attr_old : ∀ x n, x < w.next → w3.getattr x n = w.getattr x n
+  attr_o : ∀ n v, w3.getattr w.next n = some v → n ∈ s.members ∧ w.next ≤ v ∧ v < w3.next ∧
+    ∃ t, w3.info.lookup v = some (.tagged t false)
+  attr_new_other : ∀ x n, w.next ≤ x → x ≠ w.next → w3.getattr x n = none
+
+theorem attach_good {spec : List ModSpec} {w w3 : PyW} {path : Dotted} {s : ModSpec}
+    (hs : SpecOK spec) (hi : Inv spec w) (hnone : w.modOf path = none) (hne : path ≠ [])
+    (hfs : w.findSpec path = some s) (hpar : parentOk w path = true) (hL : Loaded w w3 path s) :
+    Good spec w (attach w3 path) ∧ (attach w3 path).modOf path = some w.next := by
+  have hsmem : s ∈ spec := hi.spec_eq ▸ (findSpec_path hfs).2
+  have hspath : s.path = path := (findSpec_path hfs).1
+  have hf3 : ∀ p, w3.findSpec p = w.findSpec p := findSpec_congr hL.spec
+  have hpathlook : w3.modOf path = some w.next := by rw [hL.mods]; simp
+  have hmod_ne : ∀ q, q ≠ path → w3.modOf q = w.modOf q := by
+    intro q hq; rw [hL.mods]
+    have : (q == path) = false := by simpa using hq
+    simp [this]
+  have hold_ne_path : ∀ q o, w.modOf q = some o → q ≠ path := by
+    intro q o hq e; rw [e, hnone] at hq; simp at hq
+  -- the parent, if any
+  by_cases hpe : path.dropLast.isEmpty = true
+  · -- a top-level module: nothing to attach to
+    have hat : attach w3 path = w3 := by simp [attach, hpe]
+    rw [hat]
+    refine ⟨⟨⟨hL.spec.trans hi.spec_eq, hL.info_lt, ?_, ?_, ?_, ?_, ?_⟩, by have := hL.next_lt; omega, ?_, ?_, ?_⟩, hpathlook⟩
+    · intro p o hp
+      by_cases hq : p = path
+      · subst hq; rw [hpathlook] at hp; simp at hp; subst hp; exact hL.next_lt
+      · rw [hmod_ne p hq] at hp; have := hi.mods_lt p o hp; have := hL.next_lt; omega
+    · intro o n v hv
+      by_cases ho : o < w.next
+      · rw [hL.attr_old o n ho] at hv
+        have := hi.attrs_lt o n v hv; have := hL.next_lt; omega
+      · by_cases ho2 : o = w.next
+        · subst ho2
+          obtain ⟨_, _, h3, _⟩ := hL.attr_o n v hv
+          exact ⟨hL.next_lt, h3⟩
+        · rw [hL.attr_new_other o n (by omega) ho2] at hv; simp at hv
+    · intro p o hp
+      by_cases hq : p = path
+      · subst hq; rw [hpathlook] at hp; simp at hp; subst hp; exact ⟨_, hL.info_o⟩
+      · rw [hmod_ne p hq] at hp
+        rw [hL.info_old o (hi.mods_lt p o hp)]; exact hi.mod_info p o hp
+    · intro p o n v hp hv
+      by_cases hq : p = path
+      · subst hq; rw [hpathlook] at hp; simp at hp; subst hp
+        obtain ⟨h1, _, _, h4⟩ := hL.attr_o n v hv
+        exact Or.inl ⟨h4, s, by rw [hf3]; exact hfs, h1⟩
+      · rw [hmod_ne p hq] at hp
+        have ho := hi.mods_lt p o hp
+        rw [hL.attr_old o n ho] at hv
+        rcases hi.attr_kind p o n v hp hv with ⟨⟨t, ht⟩, hmem⟩ | h2
+        · left
+          refine ⟨⟨t, by rw [hL.info_old v (hi.attrs_lt o n v hv).2]; exact ht⟩, ?_⟩
+          obtain ⟨s', h1, h2⟩ := hmem
+          exact ⟨s', by rw [hf3]; exact h1, h2⟩
+        · right; rw [hmod_ne _ (hold_ne_path _ _ h2)]; exact h2
+    · intro p c o hpne hp
+      by_cases hq : p ++ [c] = path
+      · -- impossible: path has no parent
+        have : path.dropLast = p := by rw [← hq]; simp
+        rw [this] at hpe
+        simp at hpe; exact absurd hpe hpne
+      · rw [hmod_ne _ hq] at hp
+        obtain ⟨po, h1, h2⟩ := hi.coherent p c o hpne hp
+        exact ⟨po, by rw [hmod_ne _ (hold_ne_path _ _ h1)]; exact h1,
+          by rw [hL.attr_old po c (hi.mods_lt p po h1)]; exact h2⟩
+    · intro p o hp; rw [hmod_ne p (hold_ne_path p o hp)]; exact hp
+    · intro o n v hv; rw [hL.attr_old o n (hi.attrs_lt o n v hv).1]; exact hv
+    · intro p o hp hq
+      by_cases he : p = path
+      · subst he; rw [hpathlook] at hq; simp at hq; omega
+      · rw [hmod_ne p he, hp] at hq; simp at hq
+  · -- a submodule: the parent is a registered package (checked before the search)
+    have hpe' : path.dropLast.isEmpty = false := by simpa using hpe
+    have hparne : path.dropLast ≠ [] := by intro e; rw [e] at hpe; simp at hpe
+    obtain ⟨po, hpo⟩ : ∃ po, w.modOf path.dropLast = some po := by
+      simp only [parentOk, hpe', Bool.false_or] at hpar
+      cases hm : w.modOf path.dropLast with
+      | none => simp [hm] at hpar
+      | some po => exact ⟨po, rfl⟩
+    have hpolt : po < w.next := hi.mods_lt _ _ hpo
+    have hparpath : path.dropLast ≠ path := hold_ne_path _ _ hpo
+    have hpo3 : w3.modOf path.dropLast = some po := by rw [hmod_ne _ hparpath]; exact hpo
+    have hat : attach w3 path = w3.setattr po (path.getLast?.getD []) w.next := by
+      simp [attach, hpe', hpo3, hpathlook]
+    have hdl := dropLast_getLast hne
+    -- the parent had no attribute of that name
+    have hnoattr : w.getattr po (path.getLast?.getD []) = none := by
+      cases hg : w.getattr po (path.getLast?.getD []) with
+      | none => rfl
+      | some v =>
+        rcases hi.attr_kind _ po _ v hpo hg with ⟨_, s', h1, h2⟩ | h2
+        · have hs' := findSpec_path h1
+          have := hs.members_not_children s' (hi.spec_eq ▸ hs'.2) _ h2 s hsmem
+          rw [hspath, hs'.1, hdl] at this
+          exact absurd rfl this
+        · rw [hdl, hnone] at h2; simp at h2
+    rw [hat]
+    have hgetf : ∀ x n, (w3.setattr po (path.getLast?.getD []) w.next).getattr x n =
+        if x = po ∧ n = path.getLast?.getD [] then some w.next else w3.getattr x n := getattr_setattr _ _ _ _
+    refine ⟨⟨⟨hL.spec.trans hi.spec_eq, hL.info_lt, ?_, ?_, ?_, ?_, ?_⟩, by have := hL.next_lt; simp; omega, ?_, ?_, ?_⟩,
+      by simpa using hpathlook⟩
+    · intro p o hp
+      simp only [modOf_setattr, next_setattr] at hp ⊢
+      by_cases hq : p = path
+      · subst hq; rw [hpathlook] at hp; simp at hp; subst hp; exact hL.next_lt
+      · rw [hmod_ne p hq] at hp; have := hi.mods_lt p o hp; have := hL.next_lt; omega
+    · intro o n v hv
+      rw [hgetf] at hv
+      simp only [next_setattr]
+      split at hv
+      · rename_i hc; simp at hv; subst hv; rw [hc.1]; have := hL.next_lt; exact ⟨by omega, this⟩
+      · by_cases ho : o < w.next
+        · rw [hL.attr_old o n ho] at hv
+          have := hi.attrs_lt o n v hv; have := hL.next_lt; omega
+        · by_cases ho2 : o = w.next
+          · subst ho2
+            obtain ⟨_, _, h3, _⟩ := hL.attr_o n v hv
+            exact ⟨hL.next_lt, h3⟩
+          · rw [hL.attr_new_other o n (by omega) ho2] at hv; simp at hv
+    · intro p o hp
+      simp only [modOf_setattr, info_setattr] at hp ⊢
+      by_cases hq : p = path
+      · subst hq; rw [hpathlook] at hp; simp at hp; subst hp; exact ⟨_, hL.info_o⟩
+      · rw [hmod_ne p hq] at hp
+        rw [hL.info_old o (hi.mods_lt p o hp)]; exact hi.mod_info p o hp
+    · intro p o n v hp hv
+      simp only [modOf_setattr, info_setattr] at hp ⊢
+      have hff : ∀ q, (w3.setattr po (path.getLast?.getD []) w.next).findSpec q = w.findSpec q :=
+        fun q => (findSpec_congr (by simp) q).trans (hf3 q)
+      rw [hgetf] at hv
+      by_cases hq : p = path
+      · rw [hq, hpathlook] at hp; simp at hp; subst hp
+        have hne' : ¬ (w.next = po ∧ n = path.getLast?.getD []) := fun h => by omega
+        simp only [hne', if_false] at hv
+        obtain ⟨h1, _, _, h4⟩ := hL.attr_o n v hv
+        exact Or.inl ⟨h4, s, by rw [hff, hq]; exact hfs, h1⟩
+      · rw [hmod_ne p hq] at hp
+        have ho := hi.mods_lt p o hp
+        split at hv
+        · -- the attribute just attached: it is the registered submodule
+          rename_i hc
+          simp at hv; subst hv
+          right
+          have hpp : p = path.dropLast := mod_inj hi hp (hc.1 ▸ hpo)
+          rw [hpp, hc.2, hdl]; exact hpathlook
+        · rw [hL.attr_old o n ho] at hv
+          rcases hi.attr_kind p o n v hp hv with ⟨⟨t, ht⟩, hmem⟩ | h2
+          · left
+            refine ⟨⟨t, by rw [hL.info_old v (hi.attrs_lt o n v hv).2]; exact ht⟩, ?_⟩
+            obtain ⟨s', h1, h2⟩ := hmem
+            exact ⟨s', by rw [hff]; exact h1, h2⟩
+          · right; rw [hmod_ne _ (hold_ne_path _ _ h2)]; exact h2
+    · intro p c o hpne hp
+      simp only [modOf_setattr] at hp ⊢
+      by_cases hq : p ++ [c] = path
+      · have hp' : p = path.dropLast := by rw [← hq]; simp
+        have hc' : c = path.getLast?.getD [] := by rw [← hq]; simp
+        rw [hq, hpathlook] at hp; simp at hp; subst hp
+        exact ⟨po, by rw [hp']; exact hpo3, by rw [hgetf]; simp [hc']⟩
+      · rw [hmod_ne _ hq] at hp
+        obtain ⟨po', h1, h2⟩ := hi.coherent p c o hpne hp
+        refine ⟨po', by rw [hmod_ne _ (hold_ne_path _ _ h1)]; exact h1, ?_⟩
+        rw [hgetf]
+        have hne' : ¬ (po' = po ∧ c = path.getLast?.getD []) := by
+          rintro ⟨e1, e2⟩
+          have : p = path.dropLast := mod_inj hi h1 (e1 ▸ hpo)
+          exact hq (by rw [this, e2, hdl])
+        simp only [hne', if_false]
+        rw [hL.attr_old po' c (hi.mods_lt p po' h1)]; exact h2
+    · intro p o hp; simp only [modOf_setattr]; rw [hmod_ne p (hold_ne_path p o hp)]; exact hp
+    · intro o n v hv
+      rw [hgetf]
+      have hne' : ¬ (o = po ∧ n = path.getLast?.getD []) := by
+        rintro ⟨e1, e2⟩; rw [e1, e2, hnoattr] at hv; simp at hv
+      simp only [hne', if_false]
+      rw [hL.attr_old o n (hi.attrs_lt o n v hv).1]; exact hv
+    · intro p o hp hq
+      simp only [modOf_setattr] at hq
+      by_cases he : p = path
+      · subst he; rw [hpathlook] at hq; simp at hq; omega
+      · rw [hmod_ne p he, hp] at hq; simp at hq
+
+theorem loadFound_good {spec : List ModSpec} {w : PyW} {path : Dotted} {s : ModSpec}
+    (hs : SpecOK spec) (hi : Inv spec w) (hnone : w.modOf path = none) (hne : path ≠ [])
+    (hfs : w.findSpec path = some s) (hpar : parentOk w path = true) :
+    Good spec w (loadFound w path s).2 ∧
+    ((loadFound w path s).1 = true → ((loadFound w path s).2.modOf path).isSome) := by
+  have hsmem : s ∈ spec := hi.spec_eq ▸ (findSpec_path hfs).2
+  have heff : s.effects = [] := hs.no_effects s hsmem
+  -- the module object is created and registered
+  unfold loadFound
+  simp only [fst_alloc]
+  have hw2next : ((w.alloc (.module path s.pkg)).2.setMod path w.next).next = w.next + 1 := rfl
+  have hw2spec : ((w.alloc (.module path s.pkg)).2.setMod path w.next).spec = w.spec := rfl
+  have hw2info : ∀ x, ((w.alloc (.module path s.pkg)).2.setMod path w.next).info.lookup x =
+      if x = w.next then some (.module path s.pkg) else w.info.lookup x :=
+    fun x => by simp only [info_setMod, info_alloc]
+  have hw2mods : ∀ q, ((w.alloc (.module path s.pkg)).2.setMod path w.next).modOf q =
+      if q == path then some w.next else w.modOf q :=
+    fun q => by simp only [modOf_setMod, modOf_alloc]
+  have hw2attr : ∀ x n, ((w.alloc (.module path s.pkg)).2.setMod path w.next).getattr x n = w.getattr x n :=
+    fun x n => rfl
+  generalize (w.alloc (.module path s.pkg)).2.setMod path w.next = w2 at *
+  have hw2infolt : ∀ x i, w2.info.lookup x = some i → x < w2.next := by
+    intro x i hx; rw [hw2info] at hx
+    split at hx
+    · omega
+    · have := hi.info_lt x i hx; omega
+  have hdelmods : ∀ (w' : PyW), (∀ q, w'.modOf q = w2.modOf q) → ∀ q, (w'.delMod path).modOf q = w.modOf q := by
+    intro w' hw' q
+    rw [modOf_delMod, hw', hw2mods]
+    by_cases hq : q = path
+    · subst hq; simp [hnone]
+    · have : (q == path) = false := by simpa using hq
+      simp [this]
+  have hnoattr : ∀ x n, w.next ≤ x → w.getattr x n = none := by
+    intro x n hx
+    cases hg : w.getattr x n with
+    | none => rfl
+    | some v => have := hi.attrs_lt x n v hg; omega
+  by_cases hearly : s.raises = .early
+  · -- the body raises at once: the module is un-registered again
+    simp only [hearly, beq_self_eq_true, if_true]
+    refine ⟨?_, by simp⟩
+    refine good_of_tables hi hw2spec (by simp only [next_delMod]; omega) ?_ ?_ (hdelmods w2 (fun _ => rfl))
+      (fun x n _ => by simp only [getattr_delMod]; exact hw2attr x n) ?_
+    · intro x hx
+      simp only [info_delMod]
+      rw [hw2info]; have : x ≠ w.next := by omega
+      simp [this]
+    · intro x i hx
+      simp only [info_delMod, next_delMod] at hx ⊢
+      exact hw2infolt x i hx
+    · intro x n v hx hv
+      simp only [getattr_delMod] at hv
+      rw [hw2attr, hnoattr x n hx] at hv; simp at hv
+  · have hearly' : (s.raises == Raise.early) = false := by simpa using hearly
+    simp only [hearly', Bool.false_eq_true, if_false, heff, runEffects]
+    have hRM := runMembers_spec w2 path w.next s.members hw2infolt
+    -- `w3`: after the body
+    have hw3mods : ∀ q, (runMembers w2 path w.next s.members).modOf q = w2.modOf q :=
+      fun q => by simp [modOf, hRM.mods]
+    have hold : ∀ x n, x < w.next → (runMembers w2 path w.next s.members).getattr x n = w.getattr x n := by
+      intro x n hx
+      rw [hRM.attr_other x n (by omega), hw2attr]
+    have hinfo_old : ∀ x, x < w.next → (runMembers w2 path w.next s.members).info.lookup x = w.info.lookup x := by
+      intro x hx
+      rw [hRM.info_old x (by omega), hw2info]
+      have : x ≠ w.next := by omega
+      simp [this]
+    have hinfo_lt : ∀ x i, (runMembers w2 path w.next s.members).info.lookup x = some i →
+        x < (runMembers w2 path w.next s.members).next := by
+      intro x i hx
+      by_cases hx2 : x < w2.next
+      · have := hRM.next_le; omega
+      · exact (hRM.info_new x i (by omega) hx).1
+    have hattr_o : ∀ n v, (runMembers w2 path w.next s.members).getattr w.next n = some v →
+        n ∈ s.members ∧ w.next ≤ v ∧ v < (runMembers w2 path w.next s.members).next ∧
+        ∃ t, (runMembers w2 path w.next s.members).info.lookup v = some (.tagged t false) := by
+      intro n v hv
+      by_cases hn : n ∈ s.members
+      · obtain ⟨v', h1, h2, h3, h4⟩ := hRM.attr_in n hn
+        rw [h1] at hv; simp at hv; subst hv
+        exact ⟨hn, by omega, h3, h4⟩
+      · rw [hRM.attr_notin n hn, hw2attr, hnoattr _ _ (Nat.le_refl _)] at hv; simp at hv
+    have hnew_other : ∀ x n, w.next ≤ x → x ≠ w.next → (runMembers w2 path w.next s.members).getattr x n = none := by
+      intro x n hx hne'
+      rw [hRM.attr_other x n hne', hw2attr, hnoattr x n hx]
+    by_cases hlate : s.raises = .late
+    · -- the body raises at its end: members were created on an object nobody can reach
+      simp only [hlate, beq_self_eq_true, if_true]
+      refine ⟨?_, by simp⟩
+      refine good_of_tables hi (hRM.spec.trans hw2spec) (by have := hRM.next_le; simp; omega) ?_ ?_
+        (hdelmods _ hw3mods) (fun x n hx => by simp only [getattr_delMod]; exact hold x n hx) ?_
+      · intro x hx; simp only [info_delMod]; exact hinfo_old x hx
+      · intro x i hx; simp only [info_delMod, next_delMod] at hx ⊢; exact hinfo_lt x i hx
+      · intro x n v hx hv
+        simp only [getattr_delMod, next_delMod] at hv ⊢
+        by_cases hxo : x = w.next
+        · subst hxo
+          obtain ⟨_, _, h3, _⟩ := hattr_o n v hv
+          have := hRM.next_le
+          exact ⟨by omega, h3⟩
+        · rw [hnew_other x n hx hxo] at hv; simp at hv
+    · have hlate' : (s.raises == Raise.late) = false := by simpa using hlate
+      simp only [hlate', Bool.false_eq_true, if_false]
+      have hL : Loaded w (runMembers w2 path w.next s.members) path s :=
+        ⟨hRM.spec.trans hw2spec, by have := hRM.next_le; omega, hinfo_old,
+         by rw [hRM.info_old w.next (by omega), hw2info]; simp, hinfo_lt,
+         fun q => by rw [hw3mods, hw2mods], hold, hattr_o, hnew_other⟩
+      obtain ⟨hg, hm⟩ := attach_good hs hi hnone hne hfs hpar hL
+      exact ⟨hg, fun _ => by rw [hm]; rfl⟩
+
+theorem loadOne_good {spec : List ModSpec} {w : PyW} {path : Dotted}
+    (hs : SpecOK spec) (hi : Inv spec w) (hnone : w.modOf path = none) (hne : path ≠ []) :
+    Good spec w (loadOne w path).2 ∧ ((loadOne w path).1 = true → ((loadOne w path).2.modOf path).isSome) := by
+  unfold loadOne
+  by_cases hpar : parentOk w path = true
+  · simp only [hpar, Bool.not_true, Bool.false_eq_true, if_false]
+    have h1 : Good spec w (w.emit (.find path)) := Good.of_same hi rfl rfl rfl rfl rfl
+    cases hfs : (w.emit (.find path)).findSpec path with
+    | none => exact ⟨h1, by simp⟩
+    | some s =>
+      simp only []
+      have hpar1 : parentOk (w.emit (.find path)) path = true := hpar
+      obtain ⟨h2, h3⟩ := loadFound_good (w := w.emit (.find path)) hs h1.inv' (by simpa using hnone) hne hfs hpar1
+      exact ⟨h1.trans h2, h3⟩
+  · have : parentOk w path = false := by simpa using hpar
+    simp only [this, Bool.not_false, if_true]
+    exact ⟨Good.refl hi, by simp⟩
+
+/-! ### import chains -/
+
+theorem importChainL_good {spec : List ModSpec} (hs : SpecOK spec) (ps : List Dotted) (w : PyW)
+    (hi : Inv spec w) (hne : ∀ p ∈ ps, p ≠ []) :
+    Good spec w (importChainL w ps).2 ∧
+    ((importChainL w ps).1 = true → ∀ p ∈ ps, ((importChainL w ps).2.modOf p).isSome) := by
+  induction ps generalizing w with
+  | nil => exact ⟨Good.refl hi, fun _ p hp => by simp at hp⟩
+  | cons p ps ih =>
+    have hne' : ∀ q ∈ ps, q ≠ [] := fun q hq => hne q (List.mem_cons_of_mem _ hq)
+    unfold importChainL
+    by_cases hl : (w.modOf p).isSome = true
+    · simp only [hl, if_true]
+      obtain ⟨h1, h2⟩ := ih w hi hne'
+      refine ⟨h1, fun hok q hq => ?_⟩
+      rcases List.mem_cons.1 hq with rfl | hq
+      · obtain ⟨o, ho⟩ := Option.isSome_iff_exists.1 hl
+        rw [h1.mods_mono q o ho]; rfl
+      · exact h2 hok q hq
+    · simp only [hl, Bool.false_eq_true, if_false]
+      have hnone : w.modOf p = none := by simpa using hl
+      obtain ⟨g1, g2⟩ := loadOne_good hs hi hnone (hne p List.mem_cons_self)
+      by_cases hr : (loadOne w p).1 = true
+      · simp only [hr, if_true]
+        obtain ⟨h1, h2⟩ := ih (loadOne w p).2 g1.inv' hne'
+        refine ⟨g1.trans h1, fun hok q hq => ?_⟩
+        rcases List.mem_cons.1 hq with rfl | hq
+        · obtain ⟨o, ho⟩ := Option.isSome_iff_exists.1 (g2 hr)
+          rw [h1.mods_mono q o ho]; rfl
+        · exact h2 hok q hq
+      · simp only [hr, Bool.false_eq_true, if_false]
+        exact ⟨g1, by simp⟩
+
+theorem prefixes_append_single (q : Dotted) (c : Name) : prefixes (q ++ [c]) = prefixes q ++ [q ++ [c]] := by
+  induction q with
+  | nil => simp [prefixes]
+  | cons x q ih => simp [prefixes, ih]
+
+theorem prefixes_loaded_aux {spec : List ModSpec} {w : PyW} (hi : Inv spec w) (n : Nat) :
+    ∀ p : Dotted, p.length = n → (w.modOf p).isSome = true → ∀ q ∈ prefixes p, (w.modOf q).isSome = true := by
+  induction n with
+  | zero =>
+    intro p hp _ q hq
+    have : p = [] := List.eq_nil_of_length_eq_zero hp
+    subst this; simp [prefixes] at hq
+  | succ n ih =>
+    intro p hp hl r hr
+    have hne : p ≠ [] := by intro e; rw [e] at hp; simp at hp
+    have hdl := dropLast_getLast hne
+    rw [← hdl, prefixes_append_single] at hr
+    rcases List.mem_append.1 hr with hr | hr
+    · by_cases hq : p.dropLast = []
+      · rw [hq] at hr; simp [prefixes] at hr
+      · obtain ⟨o, ho⟩ := Option.isSome_iff_exists.1 hl
+        rw [← hdl] at ho
+        obtain ⟨po, h1, _⟩ := hi.coherent p.dropLast _ o hq ho
+        exact ih p.dropLast (by simp [hp]) (by rw [h1]; rfl) r hr
+    · simp at hr; subst hr; rw [hdl]; exact hl
+
+theorem prefixes_loaded {spec : List ModSpec} {w : PyW} (hi : Inv spec w) (p : Dotted) :
+    (w.modOf p).isSome = true → ∀ q ∈ prefixes p, (w.modOf q).isSome = true :=
+  prefixes_loaded_aux hi p.length p rfl
+
+theorem importChain_good {spec : List ModSpec} (hs : SpecOK spec) (w : PyW) (p : Dotted) (hi : Inv spec w) :
+    Good spec w (importChain w p).2 ∧
+    ((importChain w p).1 = true → ∀ q ∈ prefixes p, ((importChain w p).2.modOf q).isSome) := by
+  unfold importChain
+  by_cases hl : (w.modOf p).isSome = true
+  · simp only [hl, if_true]
+    exact ⟨Good.refl hi, fun _ => prefixes_loaded hi p hl⟩
+  · simp only [hl, Bool.false_eq_true, if_false]
+    exact importChainL_good hs (prefixes p) w hi (fun q hq => prefixes_ne_nil hq)
+
+theorem mem_prefixes_append {a b : Dotted} (ha : a ≠ []) : a ∈ prefixes (a ++ b) := by
+  induction a with
+  | nil => exact absurd rfl ha
+  | cons x xs ih =>
+    cases xs with
+    | nil => simp [prefixes]
+    | cons y ys =>
+      have := ih (by simp)
+      simp only [List.cons_append, prefixes, List.mem_cons, List.mem_map]
+      right
+      exact ⟨_, by simpa [prefixes] using this, rfl⟩
+
+/-- when every prefix is registered, walking the attributes from a registered module finds everything -/
+theorem walk_found {spec : List ModSpec} {w : PyW} (hi : Inv spec w) (suf : List Name) (pre : Dotted) (o : Obj)
+    (hpre : pre ≠ []) (ho : w.modOf pre = some o)
+    (hall : ∀ q ∈ prefixes (pre ++ suf), (w.modOf q).isSome = true) : walk pyUniv w o pre suf = .found := by
+  induction suf generalizing pre o with
+  | nil => rfl
+  | cons part rest ih =>
+    have hmem : pre ++ [part] ∈ prefixes (pre ++ part :: rest) := by
+      have := mem_prefixes_append (a := pre ++ [part]) (b := rest) (by simp)
+      simpa using this
+    obtain ⟨o', ho'⟩ := Option.isSome_iff_exists.1 (hall _ hmem)
+    obtain ⟨po, h1, h2⟩ := hi.coherent pre part o' hpre ho'
+    rw [ho] at h1; simp at h1; subst h1
+    have hm : pyUniv.modOf w pre = some o := ho
+    have hg : pyUniv.getattr w o part = some o' := h2
+    simp only [walk, hm, bne_self_eq_false, Bool.false_eq_true, if_false, hg]
+    exact ih (pre ++ [part]) o' (by simp) ho' (by simpa using hall)
+
+/-! ### import statements -/
+
+theorem execFrom_good {spec : List ModSpec} (hs : SpecOK spec) (w : PyW) (fullname : Dotted) (hi : Inv spec w)
+    (hlen : 2 ≤ fullname.length) :
+    Good spec w (execFrom w fullname).2 ∧
+    (∀ v, (execFrom w fullname).1 = some v →
+      v < (execFrom w fullname).2.next ∧
+      ∀ c : Name, (execFrom w fullname).2.modOf [c] ≠ some v) := by
+  have hne : fullname ≠ [] := by intro e; rw [e] at hlen; simp at hlen
+  have hdl := dropLast_getLast hne
+  have hmne : fullname.dropLast ≠ [] := by
+    intro e
+    have : fullname.dropLast.length = fullname.length - 1 := by simp
+    rw [e] at this; simp at this; omega
+  -- a value found as attribute `n` of the registered module `m` is not registered under a one-part name
+  have hkind : ∀ (w' : PyW), Inv spec w' → ∀ mo v, w'.modOf fullname.dropLast = some mo →
+      w'.getattr mo (fullname.getLast?.getD []) = some v → ∀ c : Name, w'.modOf [c] ≠ some v := by
+    intro w' hi' mo v hmo hv c hc
+    rcases hi'.attr_kind _ mo _ v hmo hv with ⟨⟨t, ht⟩, _⟩ | h2
+    · obtain ⟨k, hk⟩ := hi'.mod_info _ _ hc
+      rw [hk] at ht; simp at ht
+    · rw [hdl] at h2
+      have := mod_inj hi' hc h2
+      rw [← this] at hlen; simp at hlen
+  have hfull : ∀ (w' : PyW), Inv spec w' → ∀ v, w'.modOf fullname = some v → ∀ c : Name, w'.modOf [c] ≠ some v := by
+    intro w' hi' v hv c hc
+    have := mod_inj hi' hc hv
+    rw [← this] at hlen; simp at hlen
+  unfold execFrom
+  simp only []
+  obtain ⟨g1, _⟩ := importChain_good hs w fullname.dropLast hi
+  by_cases hr : (importChain w fullname.dropLast).1 = true
+  · simp only [hr, Bool.not_true, Bool.false_eq_true, if_false]
+    cases hmo : (importChain w fullname.dropLast).2.modOf fullname.dropLast with
+    | none => exact ⟨g1, by simp⟩
+    | some mo =>
+      simp only []
+      cases hg : (importChain w fullname.dropLast).2.getattr mo (fullname.getLast?.getD []) with
+      | some v =>
+        simp only []
+        refine ⟨g1, fun v' hv' => ?_⟩
+        simp at hv'; subst hv'
+        exact ⟨(g1.inv'.attrs_lt _ _ _ hg).2, hkind _ g1.inv' mo v hmo hg⟩
+      | none =>
+        simp only []
+        -- the optional import of the submodule m.n
+        have hr2 : Good spec (importChain w fullname.dropLast).2
+            (if ((importChain w fullname.dropLast).2.isPkg mo && ((importChain w fullname.dropLast).2.modOf fullname).isNone) = true
+              then loadOne (importChain w fullname.dropLast).2 fullname else (true, (importChain w fullname.dropLast).2)).2 := by
+          split
+          · rename_i hc
+            have hnone : (importChain w fullname.dropLast).2.modOf fullname = none := by
+              have : ((importChain w fullname.dropLast).2.modOf fullname).isNone = true := by
+                simp only [Bool.and_eq_true] at hc; exact hc.2
+              simpa using this
+            exact (loadOne_good hs g1.inv' hnone hne).1
+          · exact Good.refl g1.inv'
+        generalize (if ((importChain w fullname.dropLast).2.isPkg mo && ((importChain w fullname.dropLast).2.modOf fullname).isNone) = true
+              then loadOne (importChain w fullname.dropLast).2 fullname else (true, (importChain w fullname.dropLast).2)) = r2 at hr2 ⊢
+        have g2 := g1.trans hr2
+        by_cases hr2b : r2.1 = true
+        · simp only [hr2b, Bool.not_true, Bool.false_eq_true, if_false]
+          have hmo2 : r2.2.modOf fullname.dropLast = some mo := hr2.mods_mono _ _ hmo
+          cases hg2 : r2.2.getattr mo (fullname.getLast?.getD []) with
+          | some v =>
+            simp only []
+            refine ⟨g2, fun v' hv' => ?_⟩
+            simp at hv'; subst hv'
+            exact ⟨(hr2.inv'.attrs_lt _ _ _ hg2).2, hkind _ hr2.inv' mo v hmo2 hg2⟩
+          | none =>
+            simp only []
+            refine ⟨g2, fun v hv => ?_⟩
+            exact ⟨hr2.inv'.mods_lt _ _ hv, hfull _ hr2.inv' v hv⟩
+        · simp only [hr2b, Bool.not_false, if_true]
+          exact ⟨g2, by simp⟩
+  · simp only [hr, Bool.not_false, if_true]
+    exact ⟨g1, by simp⟩
+
+theorem execStmt_good {spec : List ModSpec} (hs : SpecOK spec) (w : PyW) (imp : Import) (hi : Inv spec w) :
+    Good spec w (execStmt w imp).2 ∧
+    (∀ v, (execStmt w imp).1 = some v → v < (execStmt w imp).2.next) ∧
+    (imp.importAs ≠ imp.fullname → ∀ v, (execStmt w imp).1 = some v → (execStmt w imp).2.modOf imp.importAs ≠ some v) ∧
+    (imp.importAs = imp.fullname → imp.fullname ≠ [] → ∀ v, (execStmt w imp).1 = some v →
+      (execStmt w imp).2.modOf (imp.fullname.take 1) = some v ∧
+      ∀ q ∈ prefixes imp.fullname, ((execStmt w imp).2.modOf q).isSome = true) := by
+  unfold execStmt
+  by_cases h0 : imp.fullname.isEmpty = true
+  · simp only [h0, if_true]
+    exact ⟨Good.refl hi, by simp, by simp, fun _ hne => by
+      have : imp.fullname = [] := by simpa using h0
+      exact absurd this hne⟩
+  · simp only [h0, Bool.false_eq_true, if_false]
+    obtain ⟨g1, g1'⟩ := importChain_good hs w imp.fullname hi
+    by_cases h1 : imp.importAs = imp.fullname
+    · have h1' : (imp.importAs == imp.fullname) = true := by simpa using h1
+      simp only [h1', if_true]
+      by_cases hr : (importChain w imp.fullname).1 = true
+      · simp only [hr, if_true]
+        refine ⟨g1, fun v hv => g1.inv'.mods_lt _ _ hv, fun hne => absurd h1 hne, fun _ _ v hv => ⟨hv, g1' hr⟩⟩
+      · simp only [hr, Bool.false_eq_true, if_false]
+        exact ⟨g1, by simp, by simp, by simp⟩
+    · have h1' : (imp.importAs == imp.fullname) = false := by simpa using h1
+      simp only [h1', Bool.false_eq_true, if_false]
+      by_cases h2 : imp.importAs.length = 1
+      · have h2' : (imp.importAs.length != 1) = false := by simp [h2]
+        simp only [h2', Bool.false_eq_true, if_false]
+        obtain ⟨c, hc⟩ : ∃ c, imp.importAs = [c] := by
+          cases hia : imp.importAs with
+          | nil => rw [hia] at h2; simp at h2
+          | cons c rest =>
+            cases rest with
+            | nil => exact ⟨c, rfl⟩
+            | cons _ _ => rw [hia] at h2; simp at h2
+        by_cases h3 : imp.fullname.length = 1
+        · have h3' : (imp.fullname.length == 1) = true := by simp [h3]
+          simp only [h3', if_true]
+          by_cases hr : (importChain w imp.fullname).1 = true
+          · simp only [hr, if_true]
+            refine ⟨g1, fun v hv => g1.inv'.mods_lt _ _ hv, fun _ v hv hc' => ?_, fun he => absurd he h1⟩
+            exact h1 (mod_inj g1.inv' hc' hv)
+          · simp only [hr, Bool.false_eq_true, if_false]
+            exact ⟨g1, by simp, by simp, by simp⟩
+        · have h3' : (imp.fullname.length == 1) = false := by simp [h3]
+          simp only [h3', Bool.false_eq_true, if_false]
+          have hlen : 2 ≤ imp.fullname.length := by
+            have : imp.fullname ≠ [] := by simpa using h0
+            have := List.length_pos_iff.2 this
+            omega
+          obtain ⟨e1, e2⟩ := execFrom_good hs w imp.fullname hi hlen
+          refine ⟨e1, fun v hv => (e2 v hv).1, fun _ v hv => ?_, fun he => absurd he h1⟩
+          rw [hc]; exact (e2 v hv).2 c
+      · have h2' : (imp.importAs.length != 1) = true := by simp [h2]
+        simp only [h2', if_true]
+        exact ⟨Good.refl hi, by simp, by simp, by simp⟩
+
+/-! ### `exists` -/
+
+theorem existsN_good {spec : List ModSpec} (hs : SpecOK spec) (fuel : Nat) (w : PyW) (p : Dotted) (hi : Inv spec w) :
+    Good spec w (existsN fuel w p).2 := by
+  induction fuel generalizing w p with
+  | zero => exact Good.refl hi
+  | succ fuel ih =>
+    have hcache : ∀ (w' : PyW) (b : Bool), Inv spec w' →
+        Good spec w' { w' with existsCache := (p, b) :: w'.existsCache } :=
+      fun w' b hi' => Good.of_same hi' rfl rfl rfl rfl rfl
+    unfold existsN
+    cases hc : w.existsCache.lookup p with
+    | some b => exact Good.refl hi
+    | none =>
+      simp only []
+      split
+      · exact hcache w true hi
+      · split
+        · have h1 : Good spec w (w.emit (.find p)) := Good.of_same hi rfl rfl rfl rfl rfl
+          exact h1.trans (hcache _ _ h1.inv')
+        · have h1 := ih w p.dropLast hi
+          split
+          · exact h1.trans (hcache _ _ h1.inv')
+          · have h2 : Good spec (existsN fuel w p.dropLast).2 ((existsN fuel w p.dropLast).2.emit (.probe p.dropLast)) :=
+              Good.of_same h1.inv' rfl rfl rfl rfl rfl
+            have h3 := (importChain_good hs ((existsN fuel w p.dropLast).2.emit (.probe p.dropLast)) p.dropLast h2.inv').1
+            have h123 := (h1.trans h2).trans h3
+            split
+            · exact h123.trans (hcache _ _ h123.inv')
+            · split
+              · exact h123.trans (hcache _ _ h123.inv')
+              · split
+                · exact h123.trans (hcache _ _ h123.inv')
+                · have h4 : Good spec (importChain ((existsN fuel w p.dropLast).2.emit (.probe p.dropLast)) p.dropLast).2
+                      ((importChain ((existsN fuel w p.dropLast).2.emit (.probe p.dropLast)) p.dropLast).2.emit (.find p)) :=
+                    Good.of_same h123.inv' rfl rfl rfl rfl rfl
+                  exact (h123.trans h4).trans (hcache _ _ (h123.trans h4).inv')
+
+/-! ### the instance -/
+
+theorem wstep_good {spec : List ModSpec} (hs : SpecOK spec) {w w' : PyW} (hi : Inv spec w)
+    (h : WStep pyUniv w w') : Good spec w w' := by
+  rcases h with ⟨imp, rfl⟩ | ⟨p, rfl⟩
+  · have h1 : Good spec w (w.emit (.stmt imp)) := Good.of_same hi rfl rfl rfl rfl rfl
+    exact h1.trans (execStmt_good hs _ imp h1.inv').1
+  · exact existsN_good hs _ w p hi
+
+theorem inv_empty (spec : List ModSpec) : Inv spec (PyW.empty spec) := by
+  refine ⟨rfl, ?_, ?_, ?_, ?_, ?_, ?_⟩
+  · intro x i hx
+    simp only [PyW.empty, List.lookup_cons] at hx ⊢
+    by_cases h0 : x = 0
+    · subst h0; decide
+    · have : (x == 0) = false := by simpa using h0
+      simp [this] at hx
+  all_goals simp [PyW.empty, modOf, getattr]
+
+/-- **`pyUniv` satisfies `Sound`** for side-effect-free universes: the hypotheses of
+    `C07_success_resolves` hold for the concrete model of CPython's import system that the
+    correspondence check validates against the real interpreter. -/
+theorem pyUniv_sound {spec : List ModSpec} (hs : SpecOK spec) :
+    Sound pyUniv (Inv spec) (fun w o => o < w.next) where
+  inv_step := fun hi h => (wstep_good hs hi h).inv'
+  mods_mono := fun hi h hm => (wstep_good hs hi h).mods_mono _ _ hm
+  attr_mono := fun hi h ha => (wstep_good hs hi h).attr_mono _ _ _ ha
+  known_mono := fun hi h hk => Nat.lt_of_lt_of_le hk (wstep_good hs hi h).next_le
+  fresh := fun hi h h1 h2 hk => by
+    have := (wstep_good hs hi h).fresh _ _ h1 h2
+    omega
+  known_attr := fun hi _ ha => (hi.attrs_lt _ _ _ ha).2
+  exec_known := by
+    intro w imp o hi ho
+    have h1 : Good spec w (w.emit (.stmt imp)) := Good.of_same hi rfl rfl rfl rfl rfl
+    exact (execStmt_good hs _ imp h1.inv').2.1 o ho
+  plain_sound := by
+    intro w p o hi hp ho
+    have h1 : Good spec w (w.emit (.stmt ⟨p, p⟩)) := Good.of_same hi rfl rfl rfl rfl rfl
+    obtain ⟨g, _, _, h4⟩ := execStmt_good hs _ ⟨p, p⟩ h1.inv'
+    obtain ⟨hm, hall⟩ := h4 rfl hp o ho
+    cases p with
+    | nil => exact absurd rfl hp
+    | cons hd tl =>
+      have := walk_found g.inv' tl [hd] o (by simp) (by simpa using hm) (by simpa using hall)
+      show walk pyUniv (execStmt (w.emit (.stmt ⟨hd :: tl, hd :: tl⟩)) ⟨hd :: tl, hd :: tl⟩).2 o [hd] tl ≠ .missingAttr
+      rw [this]; simp
+  alias_opaque := by
+    intro w imp o hi hne ho
+    have h1 : Good spec w (w.emit (.stmt imp)) := Good.of_same hi rfl rfl rfl rfl rfl
+    exact (execStmt_good hs _ imp h1.inv').2.2.1 hne o ho
+
 end Pfb.AutoImp.PyW
